@@ -268,6 +268,12 @@ func cmdRun(args []string) int {
 	eng.workers = *workers
 	if eng.workers == 0 {
 		eng.workers = runtime.NumCPU()
+		if w := os.Getenv("SYMGO_WORKERS"); w != "" {
+			fmt.Sscan(w, &eng.workers)
+			if eng.workers < 1 {
+				eng.workers = 1
+			}
+		}
 	}
 	eng.seed = seed
 	eng.verbose = *verbose
